@@ -16,7 +16,7 @@ TRUSTED = TRUSTED_COMMON + [
     "R30 drops `.instrument(tracing::..!(..))` (logging span around a future); R31 writes `Result::map(ResolvedRecord::from)` as the equivalent match",
     "Zones::resolve: assumed deterministic function of (zones, name, qtype) (`zones_resolve`); its lookup contract is proved in unit zone_lookup",
     "Zone::soa_rr / get_apex / is_authoritative: uninterpreted functions of the zone",
-    "SharedCache::get: unconstrained on purpose except for the owner of the records (== the asked name; proved in unit cache)",
+    "SharedCache::get: unconstrained on purpose except for the owner of the records (== the asked name) and, for a typed look-up, their type (both proved in unit cache)",
     "Zones::resolve stand-in additionally assumes owners_ok (answer records owned by the query name; proved for Zone::resolve in unit zone_lookup)",
     "Metrics::*: counters only (external_body, touch nothing else)",
     "Context::at_recursion_limit / push_question / pop_question: assumed against an abstract constant limit (Vec::capacity is not modelled by vstd); is_duplicate_question is proved",
@@ -60,6 +60,8 @@ impl SharedCache {
     #[verifier::external_body]
     pub fn get(&self, name: &DomainName, qtype: QueryType) -> (r: Vec<ResourceRecord>)
         ensures all_named(r@, *name),
+            // cache: SharedCache::get/post:typed_lookup_returns_records_of_the_asked_type
+            qtype is Record ==> forall|x: int| 0 <= x < r@.len() ==> spec_rtype_of((#[trigger] r@[x]).rtype_with_data) == qtype->Record_0,
     { unimplemented!() }
 }
 impl Metrics {
@@ -210,10 +212,13 @@ FORWARD = {
             && question.qtype != QueryType::Wildcard && zr(old(context), *question)->Some_0.1->rrs@.len() > 0 ==>
             r == Ok::<ResolvedRecord, ResolutionError>(ResolvedRecord::NonAuthoritative { rrs: zr(old(context), *question)->Some_0.1->rrs, soa_rr: None }), // [C01:forwarding_local_records_returned_exactly]
         r is Ok && r->Ok_0 is AuthoritativeNameError ==> guards_pass(old(context), *question) ==> zr(old(context), *question) is Some && zone_soa_rr(zr(old(context), *question)->Some_0.0) is Some, // [C01:forwarding_name_error_only_from_an_authoritative_zone]
+        // C01 (every question type): local records come first and nothing of their name and type is added - unless the name is an alias
+        guards_pass(old(context), *question) && zr(old(context), *question) is Some && zr(old(context), *question)->Some_0.1 is Answer && zone_soa_rr(zr(old(context), *question)->Some_0.0) is None && r is Ok ==>
+            local_first(zr(old(context), *question)->Some_0.1->rrs@, resolved_rrs(r->Ok_0)) || has_alias(resolved_rrs(r->Ok_0), question.name), // [C01:forwarding_local_records_first_and_nothing_of_their_name_and_type_added]
         // the local part of a chain comes first, in order, then what the forwarder supplied for the rest of the chain
         question.qtype != QueryType::Wildcard && r is Ok ==> chain_ok(resolved_rrs(r->Ok_0), question.name), // [C10:forwarded_chain_in_order_from_the_question_name]
     decreases ctx_limit(old(context)) - old(context).question_stack@.len(),""",
-    "entry": BU + " broadcast use group_chain, lemma_chain_concat_b, lemma_merged_nil_b, lemma_nil_concat_b, axiom_rr_vec_len;",
+    "entry": BU + " broadcast use group_chain, lemma_chain_concat_b, lemma_merged_nil_b, lemma_nil_concat_b, axiom_rr_vec_len, group_local_first, lemma_alias_concat_b;",
 }
 
 RESOLVE = {
@@ -239,6 +244,7 @@ RESOLVE_LOCAL = {
         assert(final_cname is Some ==> chain_k(rfc__, question.name, rfc__.len() as int));
     }
     if final_cname is Some { lemma_alias_merged(rz__, rfc__, question.name); }
+    assert(rz__.len() <= rrs@.len()) by { reveal(local_first); lemma_merged_local_first(rz__, rfc__); }
 }"""},
                 ],
     "contract": """    requires old(context).wf(),
@@ -257,6 +263,7 @@ RESOLVE_LOCAL = {
             r is Ok && r->Ok_0 is Delegation && r->Ok_0->Delegation_rrs == zr(old(context), *question)->Some_0.1->ns_rrs && r->Ok_0->Delegation_soa_rr == zone_soa_rr(zr(old(context), *question)->Some_0.0)
             && r->Ok_0->delegation.name == zr(old(context), *question)->Some_0.1->ns_rrs@[0].name, // [C01:authoritative_referral_from_the_zone_alone]
         r is Ok && r->Ok_0 is Delegation ==> is_suffix(r->Ok_0->delegation.name.labels@, question.name.labels@), // [C06,C10:local_referral_is_for_an_ancestor_of_the_question_name]
+        r is Ok && r->Ok_0 is Delegation ==> zr(old(context), *question) is Some && zr(old(context), *question)->Some_0.1 is Delegation, // [C01:referral_only_when_the_zone_delegates]
         // C01: records of the asked name and type in a hosts file / non-authoritative zone: exactly those
         guards_pass(old(context), *question) && zr(old(context), *question) is Some && zr(old(context), *question)->Some_0.1 is Answer && zone_soa_rr(zr(old(context), *question)->Some_0.0) is None
             && question.qtype != QueryType::Wildcard && zr(old(context), *question)->Some_0.1->rrs@.len() > 0 ==>
@@ -265,6 +272,7 @@ RESOLVE_LOCAL = {
         guards_pass(old(context), *question) && zr(old(context), *question) is Some && zr(old(context), *question)->Some_0.1 is Answer && zone_soa_rr(zr(old(context), *question)->Some_0.0) is None && r is Ok ==>
             local_first(zr(old(context), *question)->Some_0.1->rrs@, result_rrs(r->Ok_0)), // [C01:local_records_first_and_nothing_of_their_name_and_type_added]
         r is Ok && r->Ok_0 is CNAME ==> has_alias(r->Ok_0->CNAME_rrs@, question.name), // [C10:partial_chain_holds_the_alias_of_the_question_name]
+        guards_pass(old(context), *question) && zr(old(context), *question) is Some && zr(old(context), *question)->Some_0.1 is Answer && r is Err ==> zr(old(context), *question)->Some_0.1->rrs@.len() == 0, // [C01:local_records_are_never_lost_to_an_error]
         // C01: a name error is only ever reported on the word of an authoritative local zone
         guards_pass(old(context), *question) && r is Ok && r->Ok_0 is Done && r->Ok_0->resolved is AuthoritativeNameError ==>
             zr(old(context), *question) is Some && zone_soa_rr(zr(old(context), *question)->Some_0.0) is Some
@@ -425,7 +433,18 @@ pub proof fn lemma_filter_has(s: Seq<ResourceRecord>, p: spec_fn(ResourceRecord)
            let w = choose|w: int| 0 <= w < s.drop_last().filter(p).len() && s.drop_last().filter(p)[w] == s[i];
            if p(s.last()) { assert(s.filter(p)[w] == s[i]); } else { assert(s.filter(p)[w] == s[i]); } }
 }
-pub broadcast group group_local_first { lemma_local_first_merged_b, lemma_merged_local_first_b, lemma_local_first_self, lemma_alias_first }
+pub broadcast proof fn lemma_alias_concat_b(a: Seq<ResourceRecord>, b: Seq<ResourceRecord>, q: DomainName)
+    requires #[trigger] has_alias(a, q)
+    ensures has_alias(#[trigger] (a + b), q)
+{
+    let i = choose|i: int| 0 <= i < a.len() && (#[trigger] a[i]).name == q && a[i].rtype_with_data is CNAME;
+    assert((a + b)[i] == a[i]);
+}
+pub broadcast proof fn lemma_local_first_nil_b(z: Seq<ResourceRecord>, x: Seq<ResourceRecord>)
+    requires z.len() == 0
+    ensures #[trigger] local_first(z, x)
+{ reveal(local_first); assert(x.subrange(0, 0) =~= z); }
+pub broadcast group group_local_first { lemma_local_first_merged_b, lemma_merged_local_first_b, lemma_local_first_self, lemma_alias_first, lemma_local_first_nil_b }
 pub broadcast proof fn lemma_merged_nil_b(a: Seq<ResourceRecord>, b: Seq<ResourceRecord>)
     requires a.len() == 0
     ensures #[trigger] merged(a, b) == b
